@@ -1725,6 +1725,11 @@ class Transaction(object):
             # public key, and signing a partially signed multisig input relies on that to keep the signatures in key order
             if not inp.verify(transaction_hash):
                 verified = False
+            elif inp.script_type == 'coinbase' and (len(self.inputs) != 1 or inp.output_n_int != 0xffffffff):
+                # Only the single input of a coinbase transaction (the null outpoint) has nothing to verify
+                _logger.info("Input %d has no previous transaction but this is not a coinbase transaction" % inp.index_n)
+                inp.valid = False
+                verified = False
 
         self.verified = verified
         return verified
